@@ -743,6 +743,46 @@ func main() {
 			}
 		}
 		emitStrList("evalOperators", ops, len(ops) > 0)
+		// every type assertion in the evaluator is the checked two-value form (or a type switch): an
+		// unchecked x.(T) panics on the wrong dynamic type
+		var unchecked []string
+		for _, fn := range []string{"query/compiler.go", "query/query.go"} {
+			f := files[fn]
+			if f == nil {
+				continue
+			}
+			checked := map[*ast.TypeAssertExpr]bool{}
+			ast.Inspect(f, func(n ast.Node) bool {
+				switch x := n.(type) {
+				case *ast.AssignStmt:
+					if len(x.Lhs) == 2 && len(x.Rhs) == 1 {
+						if ta, ok := x.Rhs[0].(*ast.TypeAssertExpr); ok {
+							checked[ta] = true
+						}
+					}
+				case *ast.ValueSpec:
+					if len(x.Names) == 2 && len(x.Values) == 1 {
+						if ta, ok := x.Values[0].(*ast.TypeAssertExpr); ok {
+							checked[ta] = true
+						}
+					}
+				}
+				return true
+			})
+			for _, d := range f.Decls {
+				fd, ok := d.(*ast.FuncDecl)
+				if !ok || fd.Body == nil {
+					continue
+				}
+				ast.Inspect(fd.Body, func(n ast.Node) bool {
+					if ta, ok := n.(*ast.TypeAssertExpr); ok && ta.Type != nil && !checked[ta] {
+						unchecked = append(unchecked, fd.Name.Name+": "+src(ta))
+					}
+					return true
+				})
+			}
+		}
+		emitStrList("evalUncheckedAssertions", unchecked, files["query/compiler.go"] != nil)
 	}
 
 	// --- lock programs of Collection methods
